@@ -50,23 +50,23 @@ Proof. intros. split; intros; [eapply rep_unfold_ok | eapply rep_unfold_stop]; e
 Print Assumptions C01_ref_repetition.
 
 (* ... predicates consume nothing and yield nil ... *)
-Theorem C01_ref_predicates : forall c ev n H R inv nid e sc g m v g' sc' m',
+Theorem C01_ref_predicates : forall (c : rdata) ev n H R inv nid e sc g m v g' sc' m',
   (reval_body c ev n H R inv (EAnd nid e) sc g m = ROk v g' sc' m' -> v = VNil /\ g' = g /\ sc' = sc) /\
   (reval_body c ev n H R inv (ENot nid e) sc g m = ROk v g' sc' m' -> v = VNil /\ g' = g /\ sc' = sc).
 Proof. intros. split; [apply and_consumes_nothing | apply not_consumes_nothing]. Qed.
 Print Assumptions C01_ref_predicates.
 
 (* ... terminals return exactly the matched input bytes ... *)
-Theorem C01_ref_terminal_values : forall c ev n H R inv nid sc g m v g' sc' m',
+Theorem C01_ref_terminal_values : forall (c : rdata) ev n H R inv nid sc g m v g' sc' m',
   reval_body c ev n H R inv (EAny nid) sc g m = ROk v g' sc' m' ->
   v = VBytes (slice c (g_off g) (g_off g')) /\ g_st g' = g_st g /\ sc' = sc /\ g_off g < g_off g'.
 Proof. exact any_value. Qed.
 Print Assumptions C01_ref_terminal_values.
 
-Theorem C01_ref_class_values : forall c ev n H R inv nid cv chars ranges classes ic cinv tb sc g m v g' sc' m',
+Theorem C01_ref_class_values : forall (c : rdata) ev n H R inv nid cv chars ranges classes ic cinv tb sc g m v g' sc' m',
   reval_body c ev n H R inv (ECls nid cv chars ranges classes ic cinv tb) sc g m = ROk v g' sc' m' ->
   v = VBytes (slice c (g_off g) (g_off g')) /\ g_st g' = g_st g /\ sc' = sc /\
-  class_decide (cU c) chars ranges classes ic cinv (fst (rune_at c (g_off g))) = true.
+  class_decide (rU c) chars ranges classes ic cinv (fst (rune_at c (g_off g))) = true.
 Proof. exact cls_value. Qed.
 Print Assumptions C01_ref_class_values.
 
@@ -77,7 +77,7 @@ Theorem C01_ref_sequence_shape : forall ev H R inv es acc sc g m v g' sc' m',
 Proof. exact seq_values. Qed.
 Print Assumptions C01_ref_sequence_shape.
 
-Theorem C01_ref_optional : forall c ev n H R inv nid e sc g m m',
+Theorem C01_ref_optional : forall (c : rdata) ev n H R inv nid e sc g m m',
   reval_body c ev n H R inv (EOpt nid e) sc g m <> RFail m'.
 Proof. exact opt_never_fails. Qed.
 Print Assumptions C01_ref_optional.
